@@ -1151,8 +1151,24 @@ pub fn c06(args: &Args) -> i32 {
                     let _ = e.unparse().len();
                     let _ = e.operator_reprs();
                     let _ = e.clone().to_deepex().map(|d| d.eval(&vec![exmex::Val::Bool(true); n]));
-                    for i in 0..n {
+                    // every index up to two past the last variable: out of range must be an Err, never a panic, also for
+                    // an expression without variables
+                    for i in 0..=n + 1 {
                         let _ = e.clone().partial(i).map(|d| d.eval(&vec![exmex::Val::Float(0.5); n]));
+                    }
+                    let _ = e.clone().partial_nth(n, 2);
+                    let _ = e.clone().partial_iter([0usize, n].into_iter());
+                }
+                if let Ok(e) = exmex::parse::<f64>(&text) {
+                    let n = e.var_names().len();
+                    for i in 0..=n + 1 {
+                        let _ = e.clone().partial(i).map(|d| d.eval(&vec![0.5; n]));
+                    }
+                    let _ = e.clone().partial_nth(n, 2);
+                    if let Ok(d) = e.to_deepex() {
+                        for i in 0..=n + 1 {
+                            let _ = d.clone().partial(i).map(|p| p.eval(&vec![0.5; n]));
+                        }
                     }
                 }
                 let _ = exmex::eval_str::<f64>(&text);
@@ -1194,7 +1210,7 @@ pub fn c06(args: &Args) -> i32 {
     let p3 = Part {
         name: "concrete-entry-points",
         out: conc,
-        bounds: json!({"alphabet": val_alphabet, "max_len": max_len3, "statement_alphabet": stmt_alphabet, "statement_max_len": max_len_stmt, "statement_texts": "every concatenation (no separator; the blank is a letter of the alphabet) up to the length bound through line_2_statement::<f64> and line_2_statement_val::<i32,f64>", "entry_points": ["parse_val::<i32,f64> (+ eval, unparse, operator_reprs, to_deepex, partial)", "eval_str::<f64>", "line_2_statement_val"],
+        bounds: json!({"alphabet": val_alphabet, "max_len": max_len3, "statement_alphabet": stmt_alphabet, "statement_max_len": max_len_stmt, "statement_texts": "every concatenation (no separator; the blank is a letter of the alphabet) up to the length bound through line_2_statement::<f64> and line_2_statement_val::<i32,f64>", "entry_points": ["parse_val::<i32,f64> (+ eval, unparse, operator_reprs, to_deepex, partial with every index 0..=n+1, partial_nth, partial_iter)", "parse::<f64> (+ partial with every index 0..=n+1 on the flat and the deep form)", "eval_str::<f64>", "line_2_statement_val"],
             "note": "concrete data types: plain execution of enumerated inputs under catch_unwind (no solver); the panics of value.rs on special operand values are decided by engine K (C17)"}),
     };
     // part 4: long and deeply nested texts in a child process (a stack overflow cannot be caught in-process)
